@@ -17,9 +17,11 @@ from harness import c05
 
 PROP = 'C16'
 META = {
-    'extractors': [],
+    'extractors': ['pymain'],
     'technique': ('Lean 4 proof (ghost UPDATE counter and statement log in the model; per-operation theorems for any state; '
-                  'flag invariant by induction over histories of ANY operations) + differential correspondence with main.py '
+                  'flag invariant by induction over histories of ANY operations) + TRANSLATION of syncUpdate / sync / '
+                  '_SO_setValue / set from main.py into a deep embedding on every run with proofs by symbolic execution that '
+                  'they equal the hand model for all states + differential correspondence with main.py '
                   '+ statement-log / raw-row / flag oracle after every step'),
     'level_text': ('Theorems C16_no_update_before_sync(_history), C16_sync_writes_pending, C16_sync_flushes_then_reloads, '
                    'C16_pending_latest, C16_dirty_iff_pending(_history), C16_insert_immediate, C16_delete_immediate, '
@@ -29,7 +31,10 @@ META = {
                    'latest pending value of each assigned column (none if nothing pending) and leave the row = old row '
                    'overridden by them; dirty <-> pending non-empty in every reachable state (any operations, raw SQL '
                    'included); INSERT and DELETE are immediate.  The model is hand-written from main.py and compared with '
-                   'the real code on every run.'),
+                   'the real code on every run.  C16_translated_*_eq_model: the bodies of syncUpdate / sync (and the '
+                   'methods listed there), translated from the AST on this run (vlib/extractors/pymain.py -> '
+                   'Extracted/PyMain.lean), run from the image of ANY model state with ANY insertion order of the pending '
+                   'dict, yield exactly what opSyncUpdate / opSync yield.'),
     'level_note': ('Trusted: Lean kernel, the harness (statement canonicaliser), SQLite as the row store; the sampling '
                    'correspondence of the model.  Event listeners, joins and per-connection instances are not modelled.'),
     'rule': ('case = one history (cache on/off, read mode A/B, ≤ 25 ops, 70 % on lazy classes); distinct = distinct op '
